@@ -102,6 +102,38 @@ func TestExploreOne(t *testing.T) {
 			continue
 		}
 		it := it
+		if it.Scenario.Crash {
+			res := &WorkResult{}
+			ce := &Explorer{T: t, Sc: it.Scenario, Opts: it.Opts}
+			runCrashItem(ce, pd, &it, res)
+			fmt.Printf("%s args=%v: %+v found=%d\n", it.Scenario.Name, it.Args, res.Stats, len(res.Found))
+			for _, f := range res.Found {
+				fmt.Printf("  %s: %s\n    %v\n", f.V.Key(), f.V.Msg, f.Choices)
+			}
+			if os.Getenv("MC_DUMP_CRASH") != "" {
+				var states []*CrashState
+				seen := map[string]bool{}
+				ref := ""
+				first := &Explorer{T: t, Sc: it.Scenario, Opts: ExploreOpts{Bound: it.Args["first"], FreeSwitch: it.Opts.FreeSwitch}, Digest: DefaultDigest}
+				first.NewMon = func() Monitor { return &crashRecorder{seen: seen, out: &states, ref: &ref} }
+				first.Run()
+				for _, cs := range states {
+					fmt.Printf("  K=%d %s\n", cs.K, cs.Digest)
+					rsc := recoveryScenario(it.Scenario)
+					rec := &Explorer{T: t, Sc: rsc, ExecOpt: ExecOpts{Boot: bootFrom(cs), Gen: 1}}
+					rec.NewMon = func() Monitor { return pd.NewMon(rsc) }
+					x := rec.runOnce(nil, nil, false)
+					var invs []string
+					for _, e := range x.W.Events {
+						if e.Kind == "INV" {
+							invs = append(invs, e.Path)
+						}
+					}
+					fmt.Printf("      recovery: %s invs=%v violations=%d\n", x.Outcome, invs, len(x.Violations))
+				}
+			}
+			continue
+		}
 		e := &Explorer{T: t, Sc: it.Scenario, Opts: it.Opts, Digest: DefaultDigest, NewMon: func() Monitor { return pd.NewMon(it.Scenario) }}
 		e.Opts.MaxSeconds = 120
 		if *flagBound >= 0 {
